@@ -29,11 +29,11 @@ TECHNIQUE = "runtime monitoring: invariant oracles (bounds, homogeneity, rigid-m
 def cases(tier, seed):
     rng = np.random.default_rng(15000 + seed)
     out = []
-    n = 60 if tier == "quick" else 500
+    n = 60 if tier == "quick" else 1500
     for k in range(n):
         out.append(dict(kind="funcs", fem="tube" if k % 2 else "wingbox", ny=int(rng.integers(2, 14)), half="full" if k % 3 == 0 else "left",
                         seed=int(rng.integers(1 << 30)), exact=bool(k % 4 < 2), tssf=float(np.round(rng.choice([1.0, rng.uniform(0.5, 2.0)]), 3))))
-    n = 60 if tier == "quick" else 600
+    n = 60 if tier == "quick" else 1800
     for k in range(n):
         fem = "tube" if k % 2 else "wingbox"
         ncrit = 2 if fem == "tube" else 4
@@ -41,12 +41,12 @@ def cases(tier, seed):
         out.append(dict(kind="ks", fem=fem, ne=ne, seed=int(rng.integers(1 << 30)), rho=float(np.round(10 ** rng.uniform(0, 3), 3)) if k % 5 else 100.0,
                         logmag=float(rng.uniform(-3, 12)) if k % 7 else 12.0, logyield=float(rng.uniform(6, 9)),
                         pattern=str(rng.choice(["random", "equal", "one_peak", "zeros", "two_close"]))))
-    n = 16 if tier == "quick" else 100
+    n = 16 if tier == "quick" else 300
     for k in range(n):
         out.append(dict(kind="closed", fem="tube" if k % 2 else "wingbox", ny=int(rng.integers(2, 8)), nx=int(rng.integers(2, 4)),
                         span=float(np.round(rng.uniform(6, 30), 2)), chord=float(np.round(rng.uniform(0.8, 3.0), 2)),
                         tssf=float(np.round(rng.choice([1.0, rng.uniform(0.5, 2.0)]), 3)), seed=int(rng.integers(1 << 30)), _cost=4))
-    n = 4 if tier == "quick" else 30
+    n = 4 if tier == "quick" else 90
     for k in range(n):
         spec = M.random_spec(rng, half="left", nx=int(rng.integers(2, 4)), ny=int(rng.integers(3, 7)))
         out.append(dict(kind="coupled", surfaces=[dict(name="wing", symmetry=True, mesh=spec, fem_model_type="tube" if k % 2 else "wingbox",
